@@ -57,7 +57,7 @@ def rw_points(label, info):
     return label in ("replace", "rename", "put<", "remove", "del>", "del<")
 
 
-def readers_writers(sp, rig="L", api="scan", writer="txn_delete_rollback", K=2, readers=1, writers=1):
+def readers_writers(sp, rig="L", api="scan", writer="txn_delete_rollback", K=2, readers=1, writers=1, shared_readers=False):
     with Env(sp, rig=rig, clock="tick") as e:
         w = e.world
         tw = e.table(schema=SCH)
@@ -68,6 +68,10 @@ def readers_writers(sp, rig="L", api="scan", writer="txn_delete_rollback", K=2, 
             tx.commit()
         victim = file_of_row(summarize(e), 2)
         trs = [e.table() for _ in range(readers)]
+        if shared_readers:
+            # all readers are threads sharing ONE long-lived handle that has already answered a read before the writers start
+            trs = [trs[0]] * readers
+            read_api(trs[0], api)
         tws = [tw] + [e.table() for _ in range(writers - 1)]
         h0 = len(e.pointer_history())
         with w.inspect():
@@ -86,6 +90,14 @@ def readers_writers(sp, rig="L", api="scan", writer="txn_delete_rollback", K=2, 
                         tx.delete_files([victim])
                         tx.commit()
                     t.snapshot_manager.delete_snapshot(t.metadata_manager.refresh().current_snapshot_id)
+                elif writer == "replace_vs_append":
+                    if i == 0:
+                        with t.new_transaction() as tx:   # delete + append in ONE transaction, racing the other writer's append
+                            tx.append_data([{"a": 10}])
+                            tx.delete_files([victim])
+                            tx.commit()
+                    else:
+                        t.append_records([{"a": 30 + i}])
                 elif writer == "replace_failed" and i == 0:
                     with t.new_transaction() as tx:
                         tx.append_data([{"a": 10}])
@@ -169,6 +181,14 @@ def readers_writers(sp, rig="L", api="scan", writer="txn_delete_rollback", K=2, 
                 for k, rws in enumerate(rows_of):
                     sp.require(rws in legal, f"{tag}: the pointer published an intermediate state {rws} that no whole transaction produces "
                                f"(legal states {legal}; schedule {trace})", {"sig": f"{tag}:partial-transaction-visible"})
+        if writer == "replace_vs_append":
+            # serial application, in pointer-flip order, of the WHOLE transaction of whoever flipped
+            cur = [1, 2, 3]
+            flips = e.pointer_history()[h0:]
+            for k, (st, a, body) in enumerate(flips):
+                cur = sorted([r for r in cur if r != 2] + [10]) if a == "w0" else sorted(cur + [30 + int(str(a)[1:])])
+                sp.require(rows_of[k + 1] == cur, f"{tag}: after the commit of {a} the pointer published rows {rows_of[k + 1]}; applying that writer's whole "
+                           f"transaction to the previous state gives {cur} (schedule {trace})", {"sig": f"{tag}:partial-transaction-visible"})
         for j, reads in windows.items():
             prev_min = 0
             for n, (s0, s1, got) in enumerate(reads):
@@ -192,6 +212,12 @@ def obligations(tier):
                 ("L", "scan", "replace_failed", 1), ("L", "row_count", "replace_failed", 1),
                 ("L", "iter_records", "txn_delete_rollback", 1), ("L", "scan_parallel", "replace_failed", 1), ("L", "scan_noverify", "txn_delete_rollback", 1),
                 ("S", "scan", "txn_delete_rollback", 1), ("S", "row_count", "replace_failed", 1)]
+        obs.append(Ob("rw.L.scan.replace_vs_append.2writers.K1", "vf.props.c02:readers_writers",
+                      {"rig": "L", "api": "scan", "writer": "replace_vs_append", "K": 1, "writers": 2, "_must_reach": ["ran"]}, timeout=T,
+                      bounds="1 reader vs 2 writers on separate handles (a delete+append transaction racing a plain append), K=1", weight=6))
+        obs.append(Ob("rw.L.scan.shared_readers.K1", "vf.props.c02:readers_writers",
+                      {"rig": "L", "api": "scan", "writer": "appends", "K": 1, "readers": 2, "shared_readers": True, "_must_reach": ["ran"]}, timeout=T,
+                      bounds="2 reader threads sharing one warm handle vs 1 writer (append, 2-append transaction), K=1", weight=6))
         for rig, api, wr, K in cfgs:
             obs.append(Ob(f"rw.{rig}.{api}.{wr}.K{K}", "vf.props.c02:readers_writers", {"rig": rig, "api": api, "writer": wr, "K": K, "_must_reach": ["ran"]},
                           timeout=T, bounds=f"rig {rig}, 1 reader ({api}, two successive reads) vs 1 writer ({wr}), K={K}", weight=K * 3))
@@ -201,6 +227,13 @@ def obligations(tier):
                 for wr in ("txn_delete_rollback", "replace_failed"):
                     obs.append(Ob(f"rw.{rig}.{api}.{wr}.K2", "vf.props.c02:readers_writers", {"rig": rig, "api": api, "writer": wr, "K": 2}, timeout=T,
                                   bounds=f"rig {rig}, 1 reader ({api}) vs 1 writer ({wr}), K=2", weight=6))
+        for api in ("scan", "row_count", "scan_batches"):
+            obs.append(Ob(f"rw.L.{api}.replace_vs_append.2writers.K2", "vf.props.c02:readers_writers",
+                          {"rig": "L", "api": api, "writer": "replace_vs_append", "K": 2, "writers": 2}, timeout=T,
+                          bounds="1 reader vs 2 writers on separate handles (a delete+append transaction racing a plain append), K=2", weight=9))
+            obs.append(Ob(f"rw.L.{api}.shared_readers.K2", "vf.props.c02:readers_writers",
+                          {"rig": "L", "api": api, "writer": "appends", "K": 2, "readers": 2, "shared_readers": True}, timeout=T,
+                          bounds="2 reader threads sharing one warm handle vs 1 writer, K=2", weight=9))
         obs.append(Ob("rw.L.scan.2writers.K2", "vf.props.c02:readers_writers", {"rig": "L", "api": "scan", "writer": "txn_delete_rollback", "K": 2, "writers": 2},
                       timeout=T, bounds="1 reader vs 2 writers, K=2", weight=9))
         obs.append(Ob("rw.L.row_count.2readers.K2", "vf.props.c02:readers_writers", {"rig": "L", "api": "row_count", "writer": "txn_delete_rollback", "K": 2, "readers": 2},
